@@ -837,6 +837,15 @@ class MapOrListValue(ContainerValue):
             f")"
         )
 
+    def __eq__(self, other):
+        if (
+            super().__eq__(other)
+            and self.list_condition == other.list_condition
+            and self.map_condition == other.map_condition
+        ):
+            return True
+        return False
+
     def filter(self, data):
         if not isinstance(data, valida.data.Data):
             data = valida.data.Data(data)
